@@ -9,7 +9,7 @@ import (
 type R = *big.Rat
 type Pt struct{ X, Y R }
 
-func F(f float64) R { r := new(big.Rat); r.SetFloat64(f); return r }
+func F(f float64) R     { r := new(big.Rat); r.SetFloat64(f); return r }
 func P(x, y float64) Pt { return Pt{F(x), F(y)} }
 func sub(a, b R) R      { return new(big.Rat).Sub(a, b) }
 func mul(a, b R) R      { return new(big.Rat).Mul(a, b) }
